@@ -66,6 +66,7 @@ class Reference:
                 i += 1
             self.thermal_updates = i
             self.rs.clear()
+        self.applied_dts = []
         self.states = [dict(zip(names, values))]
         self.records = []
         self.dts = []
@@ -82,10 +83,36 @@ class Reference:
 
     def _one(self, i, t, values):
         state = {"step": i, "time": t, "dt": self.dt_prev}
-        res = self.solver.update(state, self.rs, self.dt_prev, **dict(zip(self.names, values)))
+        # log the time step of every ANSWERED evaluation of the site update: the last one is the step that was
+        # actually applied to psi by this update (composes with any wrapper already installed on the class)
+        cls = type(self.solver)
+        cur = cls.__dict__["solve_for_psi_squared"]
+        inner = cur.__func__
+        answered = []
+
+        def logged(**kw):
+            r = inner(**kw)
+            if r is not None:
+                answered.append(float(kw["dt"]))
+            return r
+
+        cls.solve_for_psi_squared = staticmethod(logged)
+        try:
+            res = self.solver.update(state, self.rs, self.dt_prev, **dict(zip(self.names, values)))
+        finally:
+            cls.solve_for_psi_squared = cur
+        if hasattr(self, "states"):
+            self.applied_dts.append(answered[-1] if answered else None)
         new_dt, *values = res
         self.dt_prev = new_dt
         return values
+
+    def recorded_vs_applied(self):
+        """first recorded step whose per-step dt record differs from the dt of the evaluation that produced the state"""
+        for i, (rec, ap) in enumerate(zip(self.records, self.applied_dts)):
+            if ap is not None and float(rec["dt"][0]) != ap:
+                return dict(step=i, recorded=float(rec["dt"][0]), applied=ap)
+        return None
 
     def first_step_reaching(self, T):
         for i, t in enumerate(self.times):
